@@ -167,7 +167,8 @@ def transform_matrix_source(repo, g, extra_bound='Exact'):
     g.dropped.append('matrix.rs: `impl Matrix<f32>`/`impl Matrix<f64>` (identity) re-typed to Fx/Fx64, literals read as exact rationals')
     return text
 
-LEMMAS = open(os.path.join(os.path.dirname(os.path.abspath(__file__)), '..', 'contracts', 'verus', 'm3_lemmas.rs')).read
+def LEMMAS():
+    return open(os.path.join(os.path.dirname(os.path.abspath(__file__)), '..', 'contracts', 'verus', 'm3_lemmas.rs')).read()
 
 def matrix_module(repo, g):
     import preamble, m3lemmas
